@@ -5,3 +5,45 @@ pub mod polysmallmod { pub use crate::util::polysmallmod::*; }
 pub mod dwthandler { pub use crate::util::dwthandler::*; }
 pub mod scaling_variant { pub use crate::util::scaling_variant::*; }
 pub mod hash { pub use crate::util::hash::*; }
+
+/// Hooks H2/H3 (property C16): a recording tape for generator creations and sampler outputs, and a
+/// deterministic override of the entropy source of `BlakeRNGFactory::get_rng`.
+/// Both are thread-local and inert unless the harness arms them.
+pub mod rng_hooks {
+    use std::cell::RefCell;
+    use std::collections::VecDeque;
+
+    #[derive(Clone, Debug)]
+    pub enum Rec {
+        /// a generator handed out by `BlakeRNGFactory::get_rng` (`overridden`: its seed came from the override queue)
+        Generator { seed: [u8; 64], overridden: bool },
+        /// a finished `sample::{ternary, centered_binomial, uniform}` call; `data` in `[component][coefficient]` layout
+        Sample { kind: &'static str, degree: usize, moduli: Vec<u64>, data: Vec<u64> },
+    }
+
+    thread_local! {
+        static TAPE: RefCell<Option<Vec<Rec>>> = RefCell::new(None);
+        static ENTROPY: RefCell<Option<VecDeque<[u8; 64]>>> = RefCell::new(None);
+    }
+
+    /// start recording on this thread (drops anything recorded before)
+    pub fn arm_tape() { TAPE.with(|t| *t.borrow_mut() = Some(Vec::new())); }
+    /// stop recording and return what was recorded
+    pub fn take_tape() -> Vec<Rec> { TAPE.with(|t| t.borrow_mut().take().unwrap_or_default()) }
+    pub fn record(rec: Rec) { TAPE.with(|t| if let Some(v) = t.borrow_mut().as_mut() { v.push(rec) }); }
+    pub fn record_sample(kind: &'static str, parms: &crate::EncryptionParameters, data: &[u64]) {
+        TAPE.with(|t| if let Some(v) = t.borrow_mut().as_mut() {
+            let k = parms.coeff_modulus().len(); let n = parms.poly_modulus_degree();
+            v.push(Rec::Sample { kind, degree: n, moduli: parms.coeff_modulus().iter().map(|m| m.value()).collect(), data: data[..(k * n).min(data.len())].to_vec() })
+        });
+    }
+
+    /// the next `seeds.len()` entropy requests of `get_rng` on this thread return these seeds (in order)
+    pub fn set_entropy_override(seeds: Vec<[u8; 64]>) { ENTROPY.with(|e| *e.borrow_mut() = Some(seeds.into())); }
+    /// remove the override; returns how many seeds were left unused
+    pub fn clear_entropy_override() -> usize { ENTROPY.with(|e| e.borrow_mut().take().map(|q| q.len()).unwrap_or(0)) }
+    pub fn next_entropy() -> Option<[u8; 64]> { ENTROPY.with(|e| e.borrow_mut().as_mut().and_then(|q| q.pop_front())) }
+}
+
+/// `HeContext::create_random_generator` (crate-private)
+pub fn create_random_generator(context: &crate::HeContext) -> crate::util::BlakeRNG { context.create_random_generator() }
